@@ -100,7 +100,7 @@ func c08Metric(t *testing.T, c c08MetricCase) c08MetricObs {
 		next.MergeFailed(mt)
 		mt = next
 	}
-	o := c08MetricObs{Count: mt.count,
+	o := c08MetricObs{Count: verifTableCount(mt),
 		T0: c08hex(strconv.AppendInt(nil, mt.metricPeriodStart.Unix(), 10)), T1: c08hex(strconv.AppendInt(nil, c.Now, 10))}
 	for name, scopes := range mt.metrics {
 		for scope, m := range scopes {
